@@ -1593,6 +1593,40 @@ def rule_N0(ctx):
         ctx.analysed(f)
 
 
+def rule_Q1(ctx):
+    """The tree hands its callers copies of what it keeps: a query that returns one of the tree's own containers (the
+    outlier list, a clone's data list, an index map, the graph) lets a caller edit the tree by accident - the order
+    sampler pops the lists it is given, the moves append to them."""
+    prog = ctx.prog
+    ctx.rule("Q1", "queries of Tree hand out fresh containers: no property / get_* method returns self._<container> or an element of it as it is", 6)
+    tree = prog.cls("tree.tree.Tree")
+    containers = {"_data", "_node_indices", "_node_indices_rev", "_graph"}
+    n = 0
+    items = [(nm, kinds["getter"]) for nm, kinds in tree.properties.items() if "getter" in kinds] + [(nm, m) for nm, m in tree.methods.items() if nm.startswith("get_") or nm in ("to_dict",)]
+    for nm, g in sorted(items, key=lambda x: x[0]):
+        me = g.params[0] if g.params else "self"
+        local_live = set()
+        for a in ast.walk(g.node):
+            if isinstance(a, ast.Assign) and len(a.targets) == 1 and isinstance(a.targets[0], ast.Name):
+                v = a.value
+                base = v.value if isinstance(v, ast.Subscript) else v
+                if isinstance(base, ast.Attribute) and isinstance(base.value, ast.Name) and base.value.id == me and base.attr in containers and not isinstance(v, ast.Call):
+                    local_live.add(a.targets[0].id)
+        bad = []
+        for r in ast.walk(g.node):
+            if not (isinstance(r, ast.Return) and r.value is not None):
+                continue
+            v = r.value
+            base = v.value if isinstance(v, ast.Subscript) and not isinstance(v.slice, ast.Slice) else v
+            live = (isinstance(base, ast.Attribute) and isinstance(base.value, ast.Name) and base.value.id == me and base.attr in containers) or (isinstance(v, ast.Name) and v.id in local_live)
+            if live and not (isinstance(v, ast.Subscript) and base.attr in ("_node_indices", "_node_indices_rev") if isinstance(base, ast.Attribute) else False):
+                bad.append(r)
+        n += 1
+        ctx.check(not bad, "Q1", "Tree.%s returns a container of its own making" % nm, g.where(bad[0]) if bad else g.where(), "`%s` hands out the tree's own %s: whatever the caller does to it (pop, append, shuffle) is done to the tree" % (u(bad[0])[:60] if bad else "", "list" if bad and "_data" in u(bad[0]) else "container"), construct=g.qualname, stmt="live container returned")
+    if n < 6:
+        raise AnalysisError("Q1: only %d queries of Tree found" % n)
+
+
 def rule_R0(ctx):
     """An editing method that resets the whole tree (self.__init__) discards every data point, outliers
     included; it may do so only when the tree it removes equals the whole tree (Tree.__eq__: clades AND outliers)."""
@@ -1627,6 +1661,7 @@ def run(ctx):
     ctx.soft(rule_L1, fx)
     ctx.soft(rule_L2)
     ctx.soft(rule_R0)
+    ctx.soft(rule_Q1)
     ctx.soft(rule_N0)
     # a tree restored / copied from a stored form must own its data lists: the samplers edit trees in place
     # (outliers are stripped from the input of the subtree move), and a shared list silently loses the
@@ -1669,6 +1704,8 @@ _G = "phyclone/mcmc/gibbs_mh.py"
 _PG = "phyclone/mcmc/particle_gibbs.py"
 _SB = "phyclone/smc/samplers/base.py"
 SELFTEST = [
+    {"name": "Q1-outliers-query-hands-out-the-live-list", "kind": "break", "rule": "Q1", "file": "phyclone/tree/tree.py", "old": "        return list(self._data[self._OUTLIER_NODE_NAME])\n", "new": "        return self._data[self._OUTLIER_NODE_NAME]\n"},
+    {"name": "benign-outliers-query-copies-by-slice", "kind": "benign", "file": "phyclone/tree/tree.py", "old": "        return list(self._data[self._OUTLIER_NODE_NAME])\n", "new": "        return self._data[self._OUTLIER_NODE_NAME][:]\n"},
     # ---- V1
     {"name": "V1-remove_subtree-keeps-rev-entry", "kind": "break", "rule": "V1", "file": _T, "old": "                    del self._node_indices[node_id]\n                    del self._node_indices_rev[curr_idx]\n", "new": "                    del self._node_indices[node_id]\n"},
     {"name": "V1-remove_subtree-keeps-data", "kind": "break", "rule": "V1", "file": _T, "old": "                    del self._data[node_id]\n                    curr_idx", "new": "                    curr_idx"},
